@@ -12,7 +12,7 @@ THEOREMS = ['C09.C09_far', 'C09.C09_nbc_far', 'C09.farOk_iff', 'C09.shrinks_pres
 LEVEL = 'proof'
 LEVEL_TEXT = 'Theorems for all views, candidate sets and filter compositions: every individual surviving a chain that contains FarEnough(delta) is strictly farther than delta from every active deme of its target level; every individual surviving a chain containing NBC_FarEnough(phi) is strictly farther than fl(phi * mean nearest-better distance of its parent) from every considered deme (all / active only); later filters only remove. Tie: every FarEnough / NBC_FarEnough stage of every real round is recomputed by the model from NumPy distances and diffed; centroids and distances are checked against exact rational geometry of the current populations; direct monitors (centroid currency at every boundary, recomputed distances of accepted seeds). NEW (run level): round_creates — the demes created by an accepted sprouting round are, one for one and in order, the (parent, individual) pairs of the seeds the mechanism selected on the view of the tree before the round; hence C09_created_far / C09_created_nbc_far: every created deme of every run has a seed strictly farther than the threshold from the centroid of every considered deme of its level.'
 LEVEL_NOTE = 'Trusted: Lean kernel + standard axioms. Euclidean / p-norm distances and centroids are environment: NumPy values are taken from the real run and tied to exact geometry by the correspondence check (reported centroid vs exact mean of the deme current population, reported distance vs exact distance to that mean, both within 2^-30 relative) — a stale centroid (finding D3) or a different norm is a disagreement; the threshold comparison itself is done on the binary64 value exactly as the code does, so no boundary cases are skipped. In the model a centroid is a function of the state (no cache), so centroid currency is carried by the correspondence, not by a theorem.'
-TECHNIQUE = "trace refinement against the Lean tree model (Tree.step re-executes real runs) + direct monitors"
+TECHNIQUE = "Lean 4 theorems (inductive invariants of the tree machine Tree.step, proved for all configurations and event sequences) tied to the code by trace refinement (Tree.step re-executes real runs; engine generations replayed bit-exactly by the engine model) + direct monitors as failing-input search"
 RULE = "case = one traced run of a random configuration (1-3 levels, engine per level from the full list, every shipped GSC/LSC kind plus user-defined ones, both stock sprout mechanisms and user-composed chains, hibernation on/off, both directions, decimal boxes, optional cutoff/precision/stats wrappers, shared or per-level problems); non-trivial = run with >= 2 demes and >= 2 metaepochs; distinct by configuration hash"
 ASSUMPTIONS = ["objective is deterministic and never returns NaN", "runs are capped at 12 metaepochs by a user-level composite stop condition"]
 FORCE = None
